@@ -59,7 +59,7 @@ class _Handler(BaseHTTPRequestHandler):
         kind = action[0]
         model = (body or {}).get("model", "m") if isinstance(body, dict) else "m"
         if kind == "reply":
-            self._send(200, completion_body(action[1], model).encode("utf-8"), "application/json")
+            self._send_reply(action[1], model, raw)
         elif kind == "status":
             ctype = action[3] if len(action) > 3 else "application/json"
             self._send(action[1], action[2].encode("utf-8"), ctype)
@@ -87,6 +87,58 @@ class _Handler(BaseHTTPRequestHandler):
                 pass
         with srv.lock:
             req["answered"] = time.time()
+
+    def _send_reply(self, text, model, raw):
+        """An ordinary completion in one of several *equivalent* wire shapes (the reply means the same in all of them): the shape
+        is a function of the request body, so a replayed case meets the same shape."""
+        import hashlib
+        shape = hashlib.sha256(raw).digest()[0] % 5
+        with self.server.lock:
+            self.server.shapes[shape] = self.server.shapes.get(shape, 0) + 1
+        if shape == 0:
+            return self._send(200, completion_body(text, model).encode("utf-8"), "application/json")
+        obj = json.loads(completion_body(text, model))
+        if shape in (1, 2):
+            # every character of the document escaped / pretty-printed, unknown extra members, a charset parameter
+            obj["system_fingerprint"] = "fp_verif"
+            obj["service_tier"] = "default"
+            obj["choices"][0]["logprobs"] = None
+            obj["choices"][0]["message"]["refusal"] = None
+            obj["choices"][0]["message"]["annotations"] = []
+            data = json.dumps(obj, indent=2 if shape == 1 else None, ensure_ascii=True, sort_keys=(shape == 2))
+            if shape == 1:
+                data = data.replace(json.dumps(text), '"' + "".join("\\u%04x" % ord(c) if ord(c) < 0x10000 else c for c in text) + '"', 1)
+                try:
+                    if json.loads(data)["choices"][0]["message"]["content"] != text:
+                        raise ValueError
+                except Exception:
+                    data = json.dumps(obj)
+            return self._send(200, ("\n " + data + "\r\n").encode("utf-8"), "application/json; charset=utf-8")
+        data = json.dumps(obj, ensure_ascii=False).encode("utf-8")
+        if shape == 3:
+            # chunked transfer coding, small chunks that split multi-byte characters
+            self.send_response(200)
+            self.send_header("Content-Type", "application/json")
+            self.send_header("Transfer-Encoding", "chunked")
+            self.end_headers()
+            step = 7 + (len(raw) % 23)
+            for i in range(0, len(data), step):
+                part = data[i:i + step]
+                self.wfile.write(b"%x\r\n" % len(part) + part + b"\r\n")
+                self.wfile.flush()
+            self.wfile.write(b"0\r\n\r\n")
+            self.wfile.flush()
+            return
+        # shape 4: Content-Length body delivered in several writes with pauses between them
+        self.send_response(200)
+        self.send_header("Content-Type", "application/json")
+        self.send_header("Content-Length", str(len(data)))
+        self.end_headers()
+        cut = max(1, len(data) // 3)
+        for i in range(0, len(data), cut):
+            self.wfile.write(data[i:i + cut])
+            self.wfile.flush()
+            time.sleep(0.01)
 
     def _send(self, code, data, ctype):
         self.send_response(code)
@@ -118,6 +170,7 @@ class FakeAI:
         self.httpd.lock = threading.Lock()
         self.httpd.script = None
         self.httpd.session = 0
+        self.httpd.shapes = {}
         self.thread = threading.Thread(target=self.httpd.serve_forever, kwargs={"poll_interval": 0.05}, daemon=True)
         self.thread.start()
 
@@ -135,6 +188,11 @@ class FakeAI:
     def requests(self):
         with self.httpd.lock:
             return list(self.httpd.requests)
+
+    def shapes(self):
+        """How many ordinary replies went out in each wire shape (0 plain, 1 escaped+pretty, 2 extra members, 3 chunked, 4 split)."""
+        with self.httpd.lock:
+            return dict(self.httpd.shapes)
 
     def env(self, key="k-verif", model="verif-model"):
         e = {"BLOCKWATCH_AI_API_URL": self.url}
